@@ -3,6 +3,7 @@ package core
 import (
 	"errors"
 	"fmt"
+	"sort"
 	"strings"
 
 	schema "github.com/jsightapi/jsight-schema-core"
@@ -248,14 +249,11 @@ func (core *JApiCore) checkPathSchemaPropertyUserType(typeName string) error {
 }
 
 func (*JApiCore) getPropertiesNames(m map[string]ischema.Node) string {
-	if len(m) == 0 {
-		return ""
-	}
-
-	buf := strings.Builder{}
+	// Sorted: the order of a map iteration changes from run to run.
+	kk := make([]string, 0, len(m))
 	for k := range m {
-		buf.WriteString(k)
-		buf.WriteString(", ")
+		kk = append(kk, k)
 	}
-	return strings.TrimSuffix(buf.String(), ", ")
+	sort.Strings(kk)
+	return strings.Join(kk, ", ")
 }
